@@ -77,6 +77,29 @@ def error_entry_problems(run: Run, lines, injected: bool):
     return probs
 
 
+def failed_line_problems(run: Run):
+    """The other direction: a line reported as failed means the run is paused with Method Status Error (at the tick the line
+    is first reported failed, or the next one), whatever path reported the failure."""
+    probs = []
+    seen = set()
+    req_ticks = [r["tick"] + 1 for r in run.requests if r.get("kind") == "user" and r["tick"] >= 0]
+    for k, ob in enumerate(run.obs):
+        new = [x for x in ob["mstate"]["failed"] if x not in seen]
+        seen.update(new)
+        if not new or not ob["flags"]["started"] or any(0 <= k - rt <= 3 for rt in req_ticks):
+            continue
+        later = run.obs[min(k + 1, len(run.obs) - 1)]
+        if not later["flags"]["started"]:
+            continue
+        def ok(o):
+            return str(o["tags"]["Method Status"]) == "Error" and o["state"] == "Paused"
+        if not ok(ob) and not ok(later) and not any(k + 1 == rt for rt in req_ticks):
+            probs.append(("C13:failed-line-without-error-pause",
+                          f"line(s) {new} reported failed at tick {k} but one tick later System State is {later['state']} and Method "
+                          f"Status {later['tags']['Method Status']}"))
+    return probs
+
+
 def run_program(lines, schedule=(), horizon=HORIZON):
     return execute("\n".join(lines), schedule=schedule, horizon=horizon, observe=("tags", "mstate"),
                    inputs={2: {"In1": 2.0}})
@@ -94,6 +117,7 @@ def check_program(item):
     injected = any(r[0] == "inject" for _, r in schedule)
     out += tick_problems(run)
     out += error_entry_problems(run, lines, injected)
+    out += failed_line_problems(run)
     last = run.obs[-1]
     # (a Restart or Stop that is still in progress at the horizon is not a settled error pause: what a further Stop does then
     # is C08's business)
